@@ -219,6 +219,28 @@ fn multilabel_reopen(n: &str) {
     report("multilabel-reopen", before != after, format!("label count before {:?}, after compact+reopen {:?}", before, after));
 }
 
+/// vacuum-after-compaction: one relationship, compact(), close(), vacuum(), reopen and traverse both ways.
+fn vacuum_after_compaction() {
+    let d = tempfile::tempdir().unwrap();
+    let p = d.path().join("g");
+    {
+        let db = Db::open(&p).unwrap();
+        w(&db, "CREATE (:A {x:1})-[:R]->(:B {y:2})").unwrap();
+        db.compact().unwrap();
+        db.close().unwrap();
+    }
+    match nervusdb::vacuum(&p) {
+        Err(e) => report("vacuum-after-compaction", true, format!("vacuum failed: {e}")),
+        Ok(_) => {
+            let db = Db::open(&p).unwrap();
+            let out = q(&db, "MATCH (a:A)-[r:R]->(b:B) RETURN count(r) AS c");
+            let inc = q(&db, "MATCH (b:B)<-[r:R]-(a:A) RETURN count(r) AS c");
+            let ok = |r: &Result<Rows, String>| matches!(r, Ok(rs) if rs.len() == 1 && rs[0][0].1 == Value::Int(1));
+            report("vacuum-after-compaction", !(ok(&out) && ok(&inc)), format!("outgoing {:?}, incoming {:?}", out, inc));
+        }
+    }
+}
+
 /// query <cypher>: prints rows (used by several E2 replays that only need one read query on an empty db).
 fn query(cy: &str) {
     let d = tempfile::tempdir().unwrap();
@@ -238,6 +260,7 @@ fn main() {
         "pv-decode" => pv_decode(&arg(2)),
         "wal-body" => wal_body(&arg(2)),
         "multilabel-reopen" => multilabel_reopen(&arg(2)),
+        "vacuum-after-compaction" => vacuum_after_compaction(),
         "query" => query(&arg(2)),
         _ => {
             eprintln!("unknown witness");
